@@ -68,14 +68,26 @@ def init(ck):
 
 class Node:
     __slots__ = ("op", "M", "cap", "dom", "tgt", "desc", "nops", "flags", "opaque", "cmax",
-                 "kind", "naive", "square")
+                 "kind", "naive", "square", "scale", "amp", "S")
 
     def __init__(self, op, M, cap, dom, tgt, desc, kind, naive, nops=0, flags=(), opaque=False,
-                 cmax=1.0):
+                 cmax=1.0, scale=None, amp=1.0):
         self.op, self.M, self.cap, self.dom, self.tgt = op, M, cap, dom, tgt
         self.desc, self.kind, self.naive = desc, kind, naive
         self.nops, self.flags, self.opaque, self.cmax = nops, set(flags), opaque, cmax
         self.square = M.shape[0] == M.shape[1]
+        # scale: magnitude the rounding errors of this expression are relative to (operand
+        # magnitudes, not the possibly cancelled result); amp: max over the sub-tree of
+        # scale/max|M| (loss of relative accuracy through cancellation)
+        # `scale` argument: entry-wise magnitude matrix S (|A|+|B| for sums, |A||B| for chains ...)
+        mx = float(np.max(np.abs(M), initial=0.0))
+        self.S = np.abs(M) if scale is None else np.maximum(np.asarray(scale, dtype=float), np.abs(M))
+        self.scale = float(np.max(self.S, initial=0.0))
+        if mx > 0:
+            a = self.scale / mx
+        else:
+            a = 1.0 if self.scale == 0 else float("inf")
+        self.amp = max(float(amp), a)
         if self.square and M.size:
             try:
                 c = float(np.linalg.cond(M))
@@ -391,8 +403,9 @@ def leaf_sandwich(I, rng, W, X):
     op = I.SandwichOperator.make(bun.op, cheese)
     M = bun.M.T @ Mc @ bun.M
     cap = L.cap_adjoint(bun.cap) & cc & bun.cap
+    sc = bun.S.T @ np.abs(Mc) @ bun.S
     return Node(op, M, cap, X, X, ["sandwich", bun.desc, dc], "leaf:sandwich", "SandwichOperator",
-                flags=bun.flags | fl | {"sandwich"})
+                flags=bun.flags | fl | {"sandwich"}, scale=sc)
 
 
 def gen_leaf(I, rng, W, X, Y, allow_sandwich=True):
@@ -458,22 +471,24 @@ class Gen:
                 op = (a.op - b.op) if neg else (a.op + b.op)
                 Mb = embed(b.M, Xb, Xb, X, Y)
                 M = embed(a.M, Xa, Xa, X, Y) + (-Mb if neg else Mb)
+                Su = embed(a.S, Xa, Xa, X, Y) + embed(b.S, Xb, Xb, X, Y)
                 self.ck.hit("multidomain_union_sums")
                 return self.reg(self.combine(op, M, 3 & a.cap & b.cap, X, Y, [o + "_union", a.desc, b.desc],
-                                             o, "SumOperator", (a, b)))
+                                             o, "SumOperator", (a, b), scale=Su))
             a = self.gen(X, Y, depth - 1)
             b = self.gen(X, Y, int(rng.integers(0, depth)))
             op = (a.op - b.op) if neg else (a.op + b.op)
             M = a.M - b.M if neg else a.M + b.M
             return self.reg(self.combine(op, M, 3 & a.cap & b.cap, X, Y, [o, a.desc, b.desc], o,
-                                         "SumOperator", (a, b)))
+                                         "SumOperator", (a, b), scale=a.S + b.S))
         if o == "chain":
             Z = pool[int(rng.integers(0, len(pool)))]
             a = self.gen(Z, Y, depth - 1)
             b = self.gen(X, Z, int(rng.integers(0, depth)))
             op = a.op @ b.op
             return self.reg(self.combine(op, a.M @ b.M, a.cap & b.cap, X, Y,
-                                         ["chain", a.desc, b.desc], o, "ChainOperator", (a, b)))
+                                         ["chain", a.desc, b.desc], o, "ChainOperator", (a, b),
+                                         scale=a.S @ b.S))
         if o == "scal":
             a = self.gen(X, Y, depth - 1)
             u = int(rng.integers(0, 10))
@@ -489,27 +504,31 @@ class Gen:
                 c = 2
             op = (c * a.op) if rng.integers(0, 2) else a.op.scale(c)
             Mc = L.cmat_to_real(np.eye(a.M.shape[0] // 2) * complex(c))
-            n = self.combine(op, Mc @ a.M, a.cap, X, Y, ["scal", c, a.desc], o, "ChainOperator", (a,))
+            n = self.combine(op, Mc @ a.M, a.cap, X, Y, ["scal", c, a.desc], o, "ChainOperator", (a,),
+                             scale=abs(c) * a.S)
             n.flags |= fl
             return self.reg(n)
         if o == "neg":
             a = self.gen(X, Y, depth - 1)
             return self.reg(self.combine(-a.op, -a.M, a.cap, X, Y, ["neg", a.desc], o,
-                                         "ChainOperator", (a,)))
+                                         "ChainOperator", (a,), scale=a.S))
         a = self.gen(Y, X, depth - 1)
-        if o == "inv" and a.square and a.cmax <= 1e3:
+        if o == "inv" and a.square and a.cmax <= 1e3 and a.amp <= 1e2:
             op = a.op.inverse
-            return self.reg(self.combine(op, np.linalg.inv(a.M), L.cap_inverse(a.cap), X, Y,
-                                         ["inverse", a.desc], "inv", "OperatorAdapter", (a,)))
+            Mi = np.linalg.inv(a.M)
+            return self.reg(self.combine(op, Mi, L.cap_inverse(a.cap), X, Y,
+                                         ["inverse", a.desc], "inv", "OperatorAdapter", (a,),
+                                         scale=np.abs(Mi) * a.amp))
         return self.reg(self.combine(a.op.adjoint, a.M.T, L.cap_adjoint(a.cap), X, Y,
-                                     ["adjoint", a.desc], "adj", "OperatorAdapter", (a,)))
+                                     ["adjoint", a.desc], "adj", "OperatorAdapter", (a,), scale=a.S.T))
 
-    def combine(self, op, M, cap, X, Y, desc, kind, naive, kids):
+    def combine(self, op, M, cap, X, Y, desc, kind, naive, kids, scale=None):
         n = Node(op, M, cap, X, Y, desc, kind, naive,
                  nops=1 + sum(k.nops for k in kids),
                  flags=set().union(*[k.flags for k in kids]),
                  opaque=all(k.opaque for k in kids),
-                 cmax=max(k.cmax for k in kids))
+                 cmax=max(k.cmax for k in kids), scale=scale,
+                 amp=max(k.amp for k in kids))
         if type(op).__name__ != naive:
             n.flags.add("simplified")
         return n
@@ -570,7 +589,7 @@ def check_node(ck, I, rng, node, reported):
                  f"a {type(y).__name__}", capability=cap)
             continue
         if mode in (INV, ADJINV):
-            if not node.square or node.cmax > 1e4:
+            if not node.square or node.cmax > 1e4 or node.amp > 1e2:
                 ck.hit("inverse_modes_skipped_conditioning")
                 continue
         with np.errstate(divide="ignore", invalid="ignore", over="ignore"):
@@ -587,7 +606,11 @@ def check_node(ck, I, rng, node, reported):
                 ck.hit("advertised_mode_crashes")
                 continue
         Mref = ref_mode_matrix(node, mode)
-        dev, ncmp = L.mdev(Mobs, Mref)
+        if mode in (TIMES, ADJ):
+            S = node.scale
+        else:
+            S = float(np.max(np.abs(Mref), initial=0.0)) * node.amp
+        dev, ncmp = L.adev(Mobs, Mref, S)
         ck.hit("mode_matrix_comparisons")
         ck.hit("matrix_entries_compared", ncmp)
         if mode in (INV, ADJINV):
@@ -596,7 +619,7 @@ def check_node(ck, I, rng, node, reported):
             j = int(np.nanargmax(np.abs(np.nan_to_num(Mobs - Mref)).max(axis=0))) if Mobs.shape == Mref.shape else -1
             viol(f"matrix:{tag}:{MODE_NAME[mode]}",
                  f"dense matrix of {cls} (built as {node.kind}) in mode {MODE_NAME[mode]} differs from "
-                 f"the matrix expression (rel. dev {dev:.3g})", dev=dev, worst_column=j,
+                 f"the matrix expression (dev {dev:.3g} relative to the operand scale {S:.3g})", dev=dev, worst_column=j,
                  observed_col=None if j < 0 else np.round(Mobs[:, j], 6).tolist(),
                  expected_col=None if j < 0 else np.round(Mref[:, j], 6).tolist())
 
